@@ -379,6 +379,69 @@ def run_messages(ctx, B, n_cases):
             report(ctx, bad, {'kind': 'msg', 'style': style, 'reg': '((77 0 ()))', 'cls': 0, 'val': '(r)', 'tail': '01'})
 
 
+# ------------------------------------------------------------------ families of message classes declared by inheritance
+def family_fails(B):
+    return lambda fam, hist: bc.family_history(B, fam, hist)[0] is not None
+
+
+def check_family(ctx, B, fam, hist, label, lines, expect):
+    """oracle for one history over one family (freshly built classes); appends the model questions for the steps that passed"""
+    rep = bc.family_replay_dict(fam, hist)
+    ctx.case(bc.short(f'family {label} {fam["style"]} {[(d["ind"], d["parent"], d["mode"]) for d in fam["defs"]]} '
+                      f'{[(st["k"], st["how"]) for st in hist]} {sx(hist[0]["val"]) if hist else ""}'), nontrivial=True, sample_every=41)
+    ctx.count('family:' + label)
+    for d in fam['defs']:
+        ctx.count('family-class:' + ('root' if d['parent'] is None else d['mode'] + (':record-derived' if d['mode'] == 'extend' and d['rec_inherit'] else '')))
+    for st in hist:
+        ctx.count('family-step:' + st['how'])
+    bad, obs = bc.family_history(B, fam, hist)
+    if bad:
+        if len(ctx.violations) < 3:
+            f2, h2 = bc.shrink_family(B, fam, hist[:bad[0] + 1], family_fails(B))
+            b2 = bc.family_history(B, f2, h2)[0]
+            if b2:
+                fam, hist, bad = f2, h2, b2
+        uses = ' → '.join(f'{"decode" if st["how"] == "dec" else "encode"} class {st["k"]}' for st in hist[:bad[0] + 1])
+        report(ctx, f'message classes declared by inheritance, used in the order [{uses}]: {bad[1]}', bc.family_replay_dict(fam, hist))
+        return
+    reg = sx(bc.family_reg(fam))
+    for st, (n, b, m, dk, dval, actual) in zip(hist, obs):
+        lines.append(f'bin.msg.enc {reg} {st["k"]} {sx(actual)}')
+        expect.append((f'ok {n} {len(b)} id={b[0]}', rep, 'enc'))
+        lines.append(f'bin.msg.dec {reg} {sx(b + bytes.fromhex(st.get("tail", "")))}')
+        expect.append((f'ok {m} {dk} {dval}', rep, 'dec'))
+
+
+def ask_families(ctx, lines, expect):
+    if not (ctx.driver.available and lines):
+        return
+    for a, (g, rep, what) in zip(ctx.driver.ask(lines), expect):
+        if what == 'enc':
+            me = a.split()
+            a = f'ok {me[1]} {(len(me[2]) - 1) // 2} id={int(me[2][1:3], 16)}' if me[0] == 'ok' and len(me) == 3 and len(me[2]) >= 3 else a
+        if a != g:
+            ctx.disagree(f'message family, bin.msg.{what}: model `{bc.short(a, 100)}` vs implementation `{bc.short(g, 100)}`', rep)
+
+
+def run_families(ctx, B, n_fam):
+    rng = ctx.rng
+    lines, expect = [], []
+    cdir = os.path.join(VERIF, 'corpus', 'C01')
+    if os.path.isdir(cdir):
+        for f in sorted(os.listdir(cdir)):
+            c = json.load(open(os.path.join(cdir, f)))
+            if c.get('kind') == 'msg-family':
+                fam, hist = bc.family_from_replay(c)
+                check_family(ctx, B, fam, hist, 'corpus', lines, expect)
+    for _ in range(n_fam):
+        if len(ctx.violations) >= 20:
+            break
+        fam = bc.gen_family(rng)
+        for label, order in bc.family_orders(rng, fam):
+            check_family(ctx, B, fam, [bc.gen_family_step(rng, fam, k) for k in order], label, lines, expect)
+    ask_families(ctx, lines, expect)
+
+
 # ------------------------------------------------------------------ main
 def check_domain_case(ctx, B, ty, v, tail, model_line, kind_='roundtrip'):
     """oracle + correspondence for one in-domain case; `v` is the abstract value (assigned fields only)"""
@@ -407,7 +470,11 @@ def run(ctx):
                        'optional records, arrays of scalars/records/optional records with every count type) built as real classes, values '
                        'assigned through the typed attributes (in range; boundary table: min/max/+-1/sign bit/0xFF.. patterns; exhaustive '
                        '1/2-byte domains in the thorough tier), arbitrary trailing bytes; distinct = distinct (schema, value, tail); plus '
-                       'assignable-but-off-domain strings, malformed values, truncated inputs and message classes (agreement on the outcome)')
+                       'assignable-but-off-domain strings, malformed values, truncated inputs and message classes (agreement on the outcome); '
+                       'plus FAMILIES of 2-5 message classes in one application declared by inheritance (a class derived from another registered '
+                       'class with an extended / own / unchanged body, body records derived from body records, chains and siblings), each '
+                       'family used in three orders of first use (parents first, children first, mixed with repeats; first use by encoding or '
+                       'by decoding) on freshly built classes: class of the decoded message, consumed length, reads, re-encoding, id byte')
     n_rand = 2500 if quick else 60000
     n_off = 300 if quick else 4000
     n_mal = 400 if quick else 5000
@@ -531,6 +598,9 @@ def run(ctx):
 
     # ---- 3. messages
     run_messages(ctx, B, n_msg)
+    # ---- 4. message classes derived from message classes, several alive at once, every order of first use
+    if len(ctx.violations) < 20:
+        run_families(ctx, B, 60 if quick else 1500)
 
 
 def off_domain_oracle(ctx, B, ty, v, pobj, tail):
@@ -579,6 +649,15 @@ def replay(ctx, path):
         print('oracle:', bad or 'holds', '' if obs is None else obs[:4])
         if bad:
             report(ctx, bad, rep)
+        return
+    if rep.get('kind') == 'msg-family':
+        fam, hist = bc.family_from_replay(rep)
+        lines, expect = [], []
+        check_family(ctx, B, fam, hist, 'replay', lines, expect)
+        print('family:', [(j, d['ind'], d['parent'], d['mode'], sx(bc.family_body(fam, j))[:100]) for j, d in enumerate(fam['defs'])])
+        print('history:', [(st['k'], st['how'], sx(st['val'])[:80]) for st in hist])
+        print('oracle:', bc.family_history(B, fam, hist)[0] or 'holds')
+        ask_families(ctx, lines, expect)
         return
     if 'ty' not in rep:
         print('nothing to replay in', path)
